@@ -14,7 +14,18 @@ from engines import enc
 DATA_BYTE, GAP_BYTE = 0x5a, 0xaa
 
 
+_spell = [0]
+
+
 def reg(n):
+    """Register operand n; consecutive operands are spelled differently (xN, ABI name, bare number, xN ...), so that the two
+    mentions of one register in `add a0, x10, a1` never look alike.  The cycle restarts per program (run_programs)."""
+    _spell[0] += 1
+    k = _spell[0] % 4
+    if k == 1 and 0 <= n < 32:
+        return enc.ALIAS[n]
+    if k == 2:
+        return str(n)
     return 'x%d' % n
 
 
@@ -185,6 +196,7 @@ def run_programs(args):
     out = []
     for prog in progs:
         ensure_gaps(prog, workdir)
+        _spell[0] = len(prog) + sum(it['a'] + it['b'] for it in prog)
         src = '\n'.join(render_item(it) for it in prog) + '\n'
         out.append({'prog': prog, 'src': src, 'nc': observe(prog, src, False), 'c': observe(prog, src, True)})
     return out
